@@ -65,8 +65,11 @@ def run_conn_check(chk: Check, prop, prop_file, monitors, gen_kwargs, n_quick, n
             cases.append((sc["log_size"] if sc["log_size"] <= 1000 else 10000, acts))
             for nt in notes:
                 if nt[0] == "bad-log-entry":
-                    chk.violation(f"{prop}:log-entry-format", f"log entry {nt[1]!r} does not carry the time stamp and label format", {"scenario": sc})
-        ok, res, err = CT.replay_cases(prop.lower() + "_replay", cases, CS.SPACING, CS.KEEPALIVE)
+                    if prop == "C20":
+                        chk.violation(f"{prop}:log-entry-format", f"log entry {nt[1]!r} is not labelled Send or Received", {"scenario": sc})
+                    else:
+                        chk.obligation_broken("trace projection (log entry)", f"log entry {nt[1]!r} is not labelled Send or Received")
+        ok, res, err = CT.replay_cases(prop.lower() + "_replay", cases, CS.code_spacing(), CS.code_keepalive())
         if not ok:
             chk.obligation_broken(f"cases {prop.lower()}_replay", (err or "")[-800:])
         else:
